@@ -43,7 +43,9 @@ TNext == \/ Ev("GetConn") /\ GetConn(J.u, J.f) /\ PostOK(J)
          \/ Ev("DispatchOp") /\ DispatchOp(J.x, J.kd) /\ J.t = Target(st, J.x, J.kd) /\ PostOK(J)
          \/ Ev("RemoveOp") /\ RemoveOp(J.u) /\ PostOK(J)
          \/ Ev("CloseOp") /\ CloseOp(J.c) /\ PostOK(J)
-         \/ Ev("Drain") /\ UNCHANGED st      \* the users read what is queued (not part of the mux model)
+         \* the users read what is queued: the queues are empty afterwards (reading is not an action of the mux model)
+         \/ Ev("Drain") /\ st' = [st EXCEPT !.q = [c \in DOMAIN st.q |-> <<>>]]
+         \/ Ev("ProbeOp") /\ st' = [st EXCEPT !.q = [c \in DOMAIN st.q |-> <<>>]]
          \/ Ev("Reset") /\ ResetTo /\ PostOK(J)
 TSpec == TInit /\ [][TNext]_tv
 Accepted == IF TLCGet("stats").diameter = Len(Tr) THEN TRUE
